@@ -224,6 +224,56 @@ def scenario(exe, root, seed, stats):
     a.destroy()
     return out or None
 
+def rep_chain(exe, root, seed, stats):
+    """provisional (REP) hashes that never reached the parity, then replaced again, then lost: a file synced as V0
+    becomes REP with the hash of V1 (copy detection or pre-hash) while a partial sync does not reach its stripes, is
+    rewritten to V2 with another partial sync, then lost.  The parity still holds V0; fix must give V2 or fail"""
+    rng = e2e.Rng(seed)
+    a = e2e.Arr(root, exe, ndisks=2 + rng.below(2), nparity=2 + rng.below(2), ncontent=1, hashsize=rng.choice([16, 16, 8]))
+    s = sim.Sim(a, rng.fork(), weird_names=False)
+    bs = a.block
+    nb = 1 + rng.below(4)
+    size = nb * bs - rng.below(2) * (1 + rng.below(100))
+    lead = 1 + rng.below(2)
+    for d in a.disks:
+        for i in range(lead):
+            a.write(d, 'A%d' % i, rng.bytes(bs), s.tick())
+    V0, V1, V2 = rng.bytes(size), rng.bytes(size), rng.bytes(size)
+    t1 = s.tick()
+    a.write('d1', 'F', V0, s.tick()); a.write('d2', 'F', V1, t1)
+    cfg = 'rep-chain ndisks=%d nparity=%d hashsize=%d blocks=%d lead=%d seed=%d' % (a.ndisks, a.nparity, a.hashsize, nb, lead, seed)
+    if s.sync().rc != 0:
+        a.destroy(); return None
+    how = rng.choice(['copy', 'prehash'])
+    if how == 'copy':
+        a.write('d1', 'F', V1, t1); s.log('d1/F overwritten by a copy of d2/F (same stamp)')
+        r = s.run('sync', '-B', str(lead))
+    else:
+        a.write('d1', 'F', V1, s.tick()); s.log('d1/F rewritten (V1)')
+        r = s.run('sync', '-h', '-B', str(lead))
+    a.write('d1', 'F', V2, s.tick()); s.log('d1/F rewritten (V2)')
+    r = s.run('sync', '-B', str(lead))
+    if r.rc != 0 or not os.path.exists(a.contents[0]):
+        a.destroy(); return None
+    dec = fx.decode(a)
+    kinds = ''.join(sorted(set(b[1] for f in dec.files if f['sub'] == b'F' and dec.maps[f['mapping']][0] == b'd1' for b in f['blocks'])))
+    stats['rep_chain'] = stats.get('rep_chain', 0) + 1
+    stats['rep_chain_kinds'] = stats.get('rep_chain_kinds', {}); stats['rep_chain_kinds'][how + ':' + kinds] = stats['rep_chain_kinds'].get(how + ':' + kinds, 0) + 1
+    os.unlink(a.path('d1', 'F')); s.log('d1/F lost')
+    r = a.cmd('fix')
+    p = a.path('d1', 'F')
+    got = open(p, 'rb').read() if os.path.isfile(p) else None
+    rec = any(t.startswith('status:recovered:d1:F') for t in r.tags)
+    hist = '\n'.join(s.history)
+    a.destroy()
+    if got is not None and got != V2:
+        which = 'V0 (two versions ago, what the parity holds)' if got == V0 else ('V1' if got == V1 else 'other bytes')
+        return [('(%s) [rep-chain] fix leaves d1/F with %s instead of the recorded version, exit %d, reported recovered=%s (REP made by %s, recorded states %s)' % (cfg, which, r.rc, rec, how, kinds),
+                 hist + '\n' + '\n'.join(t for t in r.tags if t.split(':')[0] in ('entry', 'hash_unknown', 'fixed', 'status', 'summary', 'unrecoverable'))[:3000])]
+    if got is None and r.rc == 0:
+        return [('(%s) [rep-chain] d1/F not restored but fix exits 0' % cfg, hist)]
+    return None
+
 def directed_known(exe, root, which):
     """the two hand-derived counter-histories (DESIGN section 7), replayed on the binary.
     Returns (violated: bool, text)"""
@@ -278,8 +328,11 @@ def main(tier, seed):
     stats = {'fixes': 0, 'filters': {}, 'status': {}, 'skipped_syncs': 0}
     def job(i):
         return scenario(exe, os.path.join(vlib.scratch(), 'f%d' % i), seed * 100000 + 30000 + i, stats)
+    nrc = 32 if tier == 'quick' else 300
+    def job2(i):
+        return rep_chain(exe, os.path.join(vlib.scratch(), 'rc%d' % i), seed * 100000 + 35000 + i, stats)
     with ThreadPoolExecutor(vlib.NCPU) as ex:
-        res = list(ex.map(job, range(n)))
+        res = list(ex.map(job, range(n))) + list(ex.map(job2, range(nrc)))
     k = 0
     for r in res:
         if r:
@@ -291,7 +344,7 @@ def main(tier, seed):
             chk.violation('C05 static obligation failed: ' + o[0], o[0] + '\n' + o[2], False, 'static')
     chk.evaluations = stats['fixes']
     chk.distinct = stats['fixes']
-    chk.rule = ('%d seeded arrays with histories of complete/partial/-S -B/killed/pre-hash syncs, syncs during which a file is moved away or appended (skipped stripes), copy-detected files; then damage on any number of devices (deleted, truncated files, silently changed blocks that carry a recorded hash, lost disks, lost or partly stale parity), an unknown file added; fix with -d / -f dir / -m / no filter; oracle: every selected recorded file has the recorded bytes or is reported unrecoverable with failing exit and summary; nothing reported recovered with other bytes; unselected and unknown files byte- and mtime-identical' % n)
+    chk.rule = ('%d seeded arrays with histories of complete/partial/-S -B/killed/pre-hash syncs, syncs during which a file is moved away or appended (skipped stripes), copy-detected files; then damage on any number of devices (deleted, truncated files, silently changed blocks that carry a recorded hash, lost disks, lost or partly stale parity), an unknown file added; fix with -d / -f dir / -m / no filter; oracle: every selected recorded file has the recorded bytes or is reported unrecoverable with failing exit and summary; nothing reported recovered with other bytes; unselected and unknown files byte- and mtime-identical; plus %d rep-chain histories (a synced file becomes REP by copy detection or pre-hash while a partial sync does not reach it, is rewritten again with another partial sync, then lost: fix must return the recorded version or fail)' % (n, nrc))
     chk.samples = [dict(stats)]
     chk.corr['E2E-FIX'] = dict(stats)
     chk.finish()
